@@ -81,6 +81,18 @@ def generate(tier, seed):
     for n in (0, 1, -1, 2, 10, -10, IMAX, IMAX - 1, IMIN + 1, IMIN):
         items.append({'family': 'numerals', 'formula': atom('q', num(n))})
         items.append({'family': 'numerals', 'formula': cmp(XI, '<', sub(num(n), num(1)))})
+    # integer terms: every operator over every leaf kind (variable, zero, positive / negative numeral, placeholder), depth <=1
+    # exhaustively and depth 2 for every shape with a unary minus, the rest of depth 2 seeded
+    ileaves = [XI, num(0), num(5), num(-5), ('ifc', Q('c'))]
+    ibin = (add, sub, mul)
+    it1 = [ineg(a) for a in ileaves] + [op(a, b_) for op in ibin for a in ileaves for b_ in ileaves]
+    it2 = [ineg(t) for t in it1] + [op(ineg(a), b_) for op in ibin for a in ileaves for b_ in ileaves[:3]] \
+        + [op(b_, ineg(a)) for op in ibin for a in ileaves for b_ in ileaves[:3]]
+    rest = [op(t, a) for op in ibin for t in it1 for a in ileaves] + [op(a, t) for op in ibin for t in it1 for a in ileaves]
+    rnd.shuffle(rest)
+    for t in ileaves + it1 + it2 + rest[:200 if tier == 'quick' else len(rest)]:
+        items.append({'family': 'integer-terms', 'formula': atom('q', t)})
+        items.append({'family': 'integer-terms', 'formula': cmp(YI, '<=', t)})
     # seeded deeper tail
     n = 300 if tier == 'quick' else 5000
     pool = small + d1[:60] + chains[:40]
